@@ -56,6 +56,21 @@ CHECKS = {
         note=TRUST,
         technique='Rocq proof over a Gallina model + differential co-execution against the Python code',
     ),
+    'C05': dict(
+        ref='5.5',
+        text='Theorems in coq/Properties/C05.v for every text: the parser is total; the reported (number, value) pairs, in '
+             'output order, account for the numbered source lines in source order (relation acc, by induction over the line '
+             'list with the state of the paragraph machine generalised): each source line is reported at most once with its '
+             'own number and a value that is the line without trailing blanks / the line verbatim / the text after the first '
+             'colon trimmed, and an unreported line is blank or a declaration with an empty value; numbers lie in 1..#lines and '
+             'increase strictly over the whole result; they are contiguous inside every field; a reported field never ends in a '
+             'blank line; source lines contain no LF/CR and LF-joined lines are read back unchanged. The model is co-executed '
+             'with deb822.py on all sequences of <=5/6 lines over 8 line kinds, random line sequences with mixed terminators, '
+             'the two classifier patterns on every position class, and the six clauses are evaluated on the implementation.',
+        note=TRUST + 'The interleaving characterisation of source lines is proved for LF-joined lines; CRLF/CR handling is '
+             'co-executed. Regex classifiers are modelled by direct recognisers (small-scope exhaustive comparison).',
+        technique='Rocq proof (induction over the line list, state invariant) + exhaustive small-scope co-execution against the Python code',
+    ),
     'C15': dict(
         ref='5.15',
         text='Theorems in coq/Properties/C15.v for all relationship trees, names and candidates: simple relationships answer '
